@@ -2,7 +2,7 @@
 
 META = {
     'level': 'exploration',
-    'rule': ('Random DAGs biased to limited types (max_parallel 1/2/3/None) and wide shapes x max_workers '
+    'rule': ('Random DAGs biased to limited types (max_parallel 1/2/3/None, crossed with the cache options: default pickle cache, JSON cache, cache=None) and wide shapes x max_workers '
              '{1,2,3,None} x sim / gate-controlled fork+spawn (tasks held inside run(), released in seeded subsets, '
              'deaths) / free-running fork+spawn with random sleeps / serial; monitors: in-flight per type at every '
              'submit (Runner boundary), worker processes launched-and-unfinished (launch ledger) and tasks inside '
